@@ -81,7 +81,7 @@ class Run:
         env = {p["id"]: interp.Opaque(p.get("name") or "?") for p in self.ps}
         env[self.expr_param] = ex
         if self.self_param:
-            env[self.self_param] = {"regex_cache": cache, "found": 0}
+            env[self.self_param] = interp.LazySelf({"regex_cache": cache, "found": 0})
         try:
             got = interp.Interp(call=call, prog=self.ctx.prog, max_steps=40000).run(self.hir, env)
         except Exit:
